@@ -1,4 +1,4 @@
-From TN Require Export Harness.HBase Model.Dot Model.Tools.
+From TN Require Export Harness.HBase Sem.Fast Model.Dot Model.Tools.
 From Coq Require Import QArith.
 
 Section H.
@@ -31,10 +31,10 @@ Definition run (o : op6) : list nat * list K :=
   match o with
   | ODot a b k => dot_dense a b k
   | OSum a dims =>
-      let cs := fold_left (fun cs d => sum_net d cs) dims (sem a) in (sshape cs, dense_of (eval cs) (sshape cs))
+      let cs := fold_left (fun cs d => sum_net d cs) dims (sem a) in (sshape cs, dense_of (eval_l cs) (sshape cs))
   | OWsum a dw =>
       let cs := fold_left (fun cs (p : nat * list K) => wsum_net (fst p) (fun j => nth j (snd p) (r0 K)) cs) dw (sem a) in
-      (sshape cs, dense_of (eval cs) (sshape cs))
+      (sshape cs, dense_of (eval_l cs) (sshape cs))
   end.
 
 (* shapes are compared up to removal of the reduced (size-1) modes: values in row-major order coincide *)
